@@ -32,7 +32,7 @@ func init() {
 		Technique: "term agreement between witnessed key and storage key, must-facts at the stores (state guards), exit-fact equivalences (both representations touched together), dispatch coverage of the state enumeration",
 		Explanation: "D1 the key under which a candidate is stored is the witnessed term (AddPeer: nodeInfo[2:35], AddNode: n.Key, UpdateState: publicKey) and both witnesses are required (C03). D2 the state stored on add is Online. " +
 			"D3 every effect of updateCandidateState happens under state ∈ {Online, Offline, Maintenance} (= the declared enumeration), the default arm cannot return. D4 removeFromNetmap deletes 'candidate'‖k and '2'‖k with the same k on every path; updateNetmapState rewrites every representation that is present (exit facts: absent ∨ rewritten) as the stored record with only State replaced by the requested state, and cannot return normally with no write. " +
-			"D5 exactly one UpdateStateSuccess(key, state) per successful update, AddPeerSuccess/AddNode exactly with their store, no other emitters. D0 every effect of AddPeer/AddPeerIR/AddNode/UpdateState/UpdateStateIR/DeleteNode is gated by the documented witnesses (the gate rule of C03). R6: every normal return of AddPeer/AddPeerIR/AddNode has stored the candidate.",
+			"D5 exactly one UpdateStateSuccess(key, state) per successful update, AddPeerSuccess/AddNode exactly with their store, no other emitters. D0 every effect of AddPeer/AddPeerIR/AddNode/UpdateState/UpdateStateIR/DeleteNode is gated by the documented witnesses (the gate rule of C03). R6: every normal return of AddPeer/AddPeerIR/AddNode has stored the candidate. R9: no fault of DeleteNode/UpdateState* is decided on the presence of one candidate representation alone.",
 		NotCovered: "agreement with a reference model over operation histories; well-formedness of the node BLOB.",
 		Run:        runC07,
 	})
@@ -584,6 +584,36 @@ func runC07(cx *CheckCtx) {
 			}
 		}
 		cx.decide(both, "remove-both", key+"/always", "both representations are removed together", "a candidate can be removed from one list and stay in the other", del1.Where(w))
+		// converse: a removal is not refused because *one* representation is missing — a fault decided on a
+		// read of the candidate families looks at both of them (a node added in one format only can be removed)
+		if name == "DeleteNode" || name == "UpdateState" || name == "UpdateStateIR" {
+			okBothRead := true
+			for _, b := range m.Fn.Blocks {
+				if _, isPanic := b.Instrs[len(b.Instrs)-1].(*ssa.Panic); !isPanic {
+					continue
+				}
+				for _, p := range b.Preds {
+					ifi, isIf := p.Instrs[len(p.Instrs)-1].(*ssa.If)
+					if !isIf || a.edgeState(tb.root, p, b) == nil {
+						continue
+					}
+					ct := tb.Term(tb.root, ifi.Cond)
+					fams := map[string]bool{}
+					ct.walk(func(x *Term) bool {
+						if x.Op == "read" && len(x.Args) > 0 {
+							if f := keyFamily(x.Args[0]); f == "candidate" || f == "2" {
+								fams[f] = true
+							}
+						}
+						return true
+					})
+					if len(fams) == 1 {
+						okBothRead = false
+					}
+				}
+			}
+			cx.decide(okBothRead, "remove-both", key+"/accepts", "no fault is decided on the presence of one representation alone", name+" can refuse a candidate because one of its two representations is missing: a node added in one format only cannot be removed (or updated) although it is a candidate", w.pos(m.Fn.Pos()))
+		}
 		if name != "DeleteNode" {
 			for i, p := range []*Site{put1, put2} {
 				kk := []*Term{k1, k2}[i]
